@@ -547,6 +547,17 @@ class Graph:
                 self._reg_factory(dn)
             if mn is not None and not isinstance(kw.get('domain'), Evaluatable):
                 self.built[mn] = self.reg(obj.domain, mn)
+        elif k == "apply" and n.get("api_collection"):
+            import labrea as _l
+            spec = n["api_collection"]
+            f = {"list": _l.evaluatable_list, "tuple": _l.evaluatable_tuple, "set": _l.evaluatable_set}[spec["kind"]]
+            alias = {"list": _l.DatasetList, "tuple": _l.DatasetTuple, "set": _l.DatasetSet}[spec["kind"]]
+            members = [self.raw_or_node(m)[1] for m in spec["es"]]
+            # (the functions are documented for evaluatable members; plain constants are accepted the way `Iter` accepts them)
+            obj = (alias if nid % 2 else f)(*members)
+        elif k == "apply" and n.get("api_dict"):
+            import labrea as _l
+            obj = (_l.DatasetDict if nid % 2 else _l.evaluatable_dict)({key: self.raw_or_node(m)[1] for key, m in n["api_dict"]})
         elif k == "apply" and n.get("custom"):
             obj = CUSTOM_SHAPES[n["custom"]](self.node(n["e"]))
         elif k == "apply" and n.get("dsclass"):
